@@ -93,6 +93,9 @@ class Repo(object):
                 return
             modname = self._resolve_relative(mi, node.level, node.module) if node.level else node.module
             for a in node.names:
+                if a.name == '*':
+                    mi.__dict__.setdefault('star_imports', []).append(modname)
+                    continue
                 mi.imports[a.asname or a.name] = ('attr', modname, a.name)
         elif isinstance(node, ast.FunctionDef):
             mi.functions[node.name] = node
@@ -183,6 +186,12 @@ class Repo(object):
             return ('const', mi.constants[name], mi)
         imp = mi.imports.get(name)
         if imp is None:
+            for modname in getattr(mi, 'star_imports', []):
+                tmi = self.modules.get(modname)
+                if tmi is not None and tmi is not mi:
+                    r = self.resolve_name(tmi, name)
+                    if r is not None:
+                        return r
             return None
         if imp[0] == 'module':
             return ('module', imp[1])
